@@ -29,8 +29,10 @@ enum Cmd {
     EnableIf,
     Unsolicited,
     GetIpInterval,
+    /// shutdown() from a second handle clone, queued like any other command
+    Shutdown2,
 }
-const CMDS: [Cmd; 16] = [
+const CMDS: [Cmd; 17] = [
     Cmd::Browse2,
     Cmd::BrowseCache,
     Cmd::StopBrowse,
@@ -47,6 +49,7 @@ const CMDS: [Cmd; 16] = [
     Cmd::EnableIf,
     Cmd::Unsolicited,
     Cmd::GetIpInterval,
+    Cmd::Shutdown2,
 ];
 
 #[derive(Debug, PartialEq)]
@@ -76,10 +79,13 @@ struct Issued {
     helper: Option<std::thread::JoinHandle<Result<u32, String>>>,
     /// where the call was made: "queue" or "window-N"
     origin: String,
+    /// status receiver of a queued second shutdown, and whether it has yielded Shutdown
+    shutdown2: Option<Receiver<DaemonStatus>>,
+    shutdown2_seen: bool,
 }
 
 fn issue(w: &mut World, h: &ServiceDaemon, c: Cmd) -> Issued {
-    let mut is = Issued { what: format!("{c:?}"), result: Ok(()), probes: vec![], event_ch: None, helper: None, origin: "queue".into() };
+    let mut is = Issued { what: format!("{c:?}"), result: Ok(()), probes: vec![], event_ch: None, helper: None, origin: "queue".into(), shutdown2: None, shutdown2_seen: false };
     let err = |e: Error| e.to_string();
     match c {
         Cmd::Browse2 => match h.browse("_u._udp.local.") {
@@ -118,6 +124,10 @@ fn issue(w: &mut World, h: &ServiceDaemon, c: Cmd) -> Issued {
         Cmd::DisableIf => is.result = h.disable_interface("sim9").map_err(err),
         Cmd::EnableIf => is.result = h.enable_interface("sim0").map_err(err),
         Cmd::Unsolicited => is.result = h.accept_unsolicited(true).map_err(err),
+        Cmd::Shutdown2 => match h.clone().shutdown() {
+            Ok(rx) => is.shutdown2 = Some(rx),
+            Err(e) => is.result = Err(err(e)),
+        },
         Cmd::GetIpInterval => {
             // the one call that waits for its reply itself (10 s real time): helper thread
             let h2 = h.clone();
@@ -261,10 +271,29 @@ fn run_case_pre(cmds: &[Cmd], pos: usize, batch_mask: u64, window: u64, extra: C
                 second = Some(h2.shutdown().map_err(|e| e.to_string()));
             }
         }
+        // finality: once any caller holds the Shutdown status, every call on any clone fails
+        for is in issued.iter_mut() {
+            if let Some(rx) = &is.shutdown2 {
+                if !is.shutdown2_seen && matches!(rx.try_recv(), Ok(DaemonStatus::Shutdown)) {
+                    is.shutdown2_seen = true;
+                    res.count("second_shutdown_answered", 1);
+                    if let Ok(_rx) = h2.get_metrics() {
+                        res.viols.push(viol("C14|call-accepted-after-a-caller-received-Shutdown", format!("queue {:?} shutdown at {pos} batching {batch_mask:#b}: get_metrics() accepted at exit point {:?} although the second shutdown() caller already holds Shutdown", cmds, w.ds[0].park.point)));
+                    }
+                }
+            }
+        }
         if cur_window == 4 || cur_window == 9 || guard > 14 {
             break;
         }
         w.step(0);
+    }
+    for is in issued.iter() {
+        if let Some(rx) = &is.shutdown2 {
+            if !is.shutdown2_seen && matches!(rx.try_recv(), Err(flume::TryRecvError::Empty)) {
+                res.viols.push(viol("C14|queued-second-shutdown-caller-left-waiting", format!("queue {:?} shutdown at {pos} batching {batch_mask:#b}", cmds)));
+            }
+        }
     }
     res.transitions = w.steps;
     let ended = matches!(w.ds[0].state, StepOut::Exited { .. });
@@ -280,10 +309,19 @@ fn run_case_pre(cmds: &[Cmd], pos: usize, batch_mask: u64, window: u64, extra: C
         return res;
     }
     res.count("shutdowns_completed", 1);
-    // the shutdown caller gets Shutdown
+    // the shutdown caller gets Shutdown; if a second clone's shutdown() was queued ahead of it, that
+    // one does, and this caller's channel may just be closed (its request was dropped unexecuted)
+    let second_first = cmds.iter().take(pos).any(|c| *c == Cmd::Shutdown2);
+    if second_first {
+        let got = issued.iter().any(|is| is.shutdown2_seen || is.shutdown2.as_ref().is_some_and(|rx| matches!(rx.try_recv(), Ok(DaemonStatus::Shutdown))));
+        if !got {
+            res.viols.push(viol("C14|first-queued-shutdown-caller-did-not-receive-Shutdown", ctx.clone()));
+        }
+    }
     match (&shutdown_call, &shutdown_rx) {
         (Ok(()), Some(rx)) => match rx.try_recv() {
             Ok(DaemonStatus::Shutdown) => {}
+            Err(flume::TryRecvError::Disconnected) if second_first => {}
             other => res.viols.push(viol("C14|shutdown-caller-did-not-receive-Shutdown", format!("{ctx}: {other:?}"))),
         },
         (Err(e), _) => res.viols.push(viol("C14|shutdown-call-failed", format!("{ctx}: {e}"))),
@@ -442,7 +480,7 @@ pub fn check(tier: &str) -> i32 {
     let d1 = [nc, 2, 4, 1 + 4 * ne + 1];
     let one = FnPart {
         name: "one-command-and-shutdown".into(),
-        rule: "every externally reachable command kind (16) with shutdown before or after it x every split of the two commands into loop iterations x (no further call | one further call of 6 kinds from a second handle clone in each of the 4 exit windows: after clean-up, after the queue was drained but before the receiver is dropped, after the command channel closed, after the thread ended | no further call but five browses of other types in the pre-state whose receivers the client dropped without stop_browse)".into(),
+        rule: "every externally reachable command kind (17, incl. a second shutdown() from another clone) with shutdown before or after it x every split of the two commands into loop iterations x (no further call | one further call of 6 kinds from a second handle clone in each of the 4 exit windows: after clean-up, after the queue was drained but before the receiver is dropped, after the command channel closed, after the thread ended | no further call but five browses of other types in the pre-state whose receivers the client dropped without stop_browse)".into(),
         n: product(&d1),
         describe: Box::new(move |i| { let x = unrank(i, &d1); format!("{:?} shutdown-pos {} batching {:#b} window/extra {}", CMDS[x[0] as usize], x[1], x[2], x[3]) }),
         run: Box::new(move |i, tr| {
